@@ -127,6 +127,10 @@ func scriptedPrefix(s *Store, c vcfg, keys [][]byte, m *model, which int) {
 	case 6: // overwrite of an unflushed record
 		put(0)
 		put(0)
+	case 8: // a removed key's record still unmarked (its freelist entry is not flushed) next to a later key
+		put(0)
+		remove(0)
+		put(last)
 	case 7: // a dead file between live ones (needs >= 3 keys)
 		put(0)
 		put(1)
